@@ -80,4 +80,7 @@ coqc_ CasesConcLimit
 python3 "$HERE/validate/gen_conc_join_cases.py" "$WORK/coq/theories/CasesConcJoinV2.v"
 coqc_ CasesConcJoinV2
 /usr/bin/time -f "ValConcJoinV2.v: %es" bash -c "cd '$WORK/coq' && timeout 3600 coqc -Q theories Cqos theories/ValConcJoinV2.v"
+python3 "$HERE/validate/gen_conc_unite_cases.py" "$WORK/coq/theories/CasesConcUnite.v"
+coqc_ CasesConcUnite
+/usr/bin/time -f "ValConcUnite.v: %es" bash -c "cd '$WORK/coq' && timeout 3600 coqc -Q theories Cqos theories/ValConcUnite.v"
 echo "== validation passed"
